@@ -198,6 +198,10 @@ pub fn lex_long_decade(source: &[char]) -> Option<FoundToken> {
     if source[4] != 's' {
         return None;
     }
+    // The plural `s` must end the word: `1980st` is a number with a (wrong) suffix.
+    if source.get(5).is_some_and(|c| c.is_alphanumeric()) {
+        return None;
+    }
 
     Some(FoundToken {
         token: TokenKind::Decade,
